@@ -335,21 +335,21 @@ theorem diskParts_spec {S : Snap} : ∀ pw ∈ S.diskParts, pw ∈ S.parts ∧ p
     procedure links exactly the file parts of the pinned snapshot and writes the manifest of that snapshot. -/
 theorem takeFileSnapshot_ok {σ : Type} (L : Lens σ) (hook : Nat → σ → σ) (Env : σ → Prop) (S : Snap)
     (hgs : ∀ st t, Env st → L.get (L.set st t) = t)
-    (hset : ∀ st t, Env st → Env (L.set st t))
+    (hset : ∀ st t, Env st → t.WF → Env (L.set st t))
     (hhook : ∀ p st, Env st → Holds L S st → Env (hook p st) ∧ Holds L S (hook p st))
     (st : σ) (henv : Env st) (hwf : (L.get st).WF) (hcur : (L.get st).cur = some S) (hne : S.diskParts ≠ [])
     (dst0 : Option Dst) (p0 : Nat) :
     ∃ st', takeFileSnapshot L hook none dst0 p0 st =
         (st', ⟨.ok, some ⟨S.diskParts.map PW.toDisk, some S.ids⟩⟩, p0 + S.diskParts.length + 1)
       ∧ Env st' ∧ (L.get st').WF := by
-  have e1 : Env (L.set st ((L.get st).pin S)) := hset _ _ henv
+  have e1 : Env (L.set st ((L.get st).pin S)) := hset _ _ henv (wf_pin hwf hcur)
   have g1 : L.get (L.set st ((L.get st).pin S)) = (L.get st).pin S := hgs _ _ henv
   have h1 : Holds L S (L.set st ((L.get st).pin S)) := by
     unfold Holds; rw [g1]; exact ⟨wf_pin hwf hcur, by simp [Table.pin]⟩
   obtain ⟨st2, hl, e2, h2⟩ := linkLoop_ok L hook Env S hhook S.diskParts p0 _ [] diskParts_spec e1 h1
   obtain ⟨e3, h3⟩ := hhook (p0 + S.diskParts.length) st2 e2 h2
   refine ⟨L.set (hook (p0 + S.diskParts.length) st2) ((L.get (hook (p0 + S.diskParts.length) st2)).unpin S), ?_,
-    hset _ _ e3, ?_⟩
+    hset _ _ e3 (wf_unpin h3.1 S), ?_⟩
   · unfold takeFileSnapshot
     simp only [hcur]
     have : S.diskParts.isEmpty = false := by
@@ -606,5 +606,669 @@ theorem run_log (t : Table) (ops : List MOp) : (t.run ops).log = t.log ++ introd
   | cons op rest ih =>
     show (Table.run (t.step op) rest).log = _
     rw [ih, step_log, List.append_assoc, ← introduced_cons]
+
+/-! ### closing and reopening a table -/
+
+theorem wf_close {t : Table} (h : t.WF) : t.close.WF := by
+  unfold Table.close
+  apply wf_gc
+  refine ⟨?_, h.disk_nodup, h.disk_le, by simp, by simp, by simp⟩
+  intro s hs
+  exact h.live_on_disk s (by simp only [Table.live, Option.toList, List.nil_append] at hs; simp [Table.live, hs])
+
+theorem le_maxId : ∀ (l : List DiskPart) (m : Nat), (m ≤ l.foldl (fun m d => max m d.id) m) ∧
+    ∀ d ∈ l, d.id ≤ l.foldl (fun m d => max m d.id) m
+  | [], m => ⟨Nat.le_refl _, by simp⟩
+  | a :: r, m => by
+    have ih := le_maxId r (max m a.id)
+    simp only [List.foldl_cons]
+    refine ⟨Nat.le_trans (Nat.le_max_left _ _) ih.1, ?_⟩
+    intro d hd
+    rcases List.mem_cons.mp hd with hd | hd
+    · subst hd; exact Nat.le_trans (Nat.le_max_right _ _) ih.1
+    · exact ih.2 d hd
+
+theorem wf_fresh (l : List Nat) (m : Nat) : ({ log := l, mark := m } : Table).WF := by
+  refine ⟨?_, by simp, by simp, by simp, by simp, by simp⟩
+  intro s hs; simp [Table.live] at hs
+
+theorem wf_reopen {t : Table} (h : t.WF) : t.reopen.WF := by
+  unfold Table.reopen
+  split
+  · exact wf_fresh _ _
+  · rename_i m _
+    simp only
+    split
+    · exact wf_fresh _ _
+    · have hsub : (t.disk.filter (fun d => m.contains d.id && d.complete)).Sublist t.disk := List.filter_sublist
+      refine ⟨?_, ?_, ?_, ?_, ?_, ?_⟩
+      · intro s hs pw hp _
+        simp only [Table.live, Option.toList, List.append_nil, List.mem_singleton] at hs
+        subst hs
+        simp only [List.mem_map] at hp
+        obtain ⟨d, hd, rfl⟩ := hp
+        have hc : d.complete = true := by
+          have := (List.mem_filter.mp hd).2
+          simp only [Bool.and_eq_true] at this; exact this.2
+        show PW.toDisk ⟨d.id, false, d.batches⟩ ∈ _
+        have : PW.toDisk ⟨d.id, false, d.batches⟩ = d := by
+          cases d; simp only [PW.toDisk] at *; simp [hc]
+        rw [this]; exact hd
+      · exact h.disk_nodup.sublist (hsub.map _)
+      · intro d hd; exact (le_maxId _ 0).2 d hd
+      · intro s hs; simp only [Option.some.injEq] at hs; subst hs
+        simp only [List.map_map]
+        exact h.disk_nodup.sublist (hsub.map _)
+      · intro s hs pw hp; simp only [Option.some.injEq] at hs; subst hs
+        simp only [List.mem_map] at hp
+        obtain ⟨d, hd, rfl⟩ := hp
+        exact (le_maxId _ 0).2 d hd
+      · intro s hs pw hp hm; simp only [Option.some.injEq] at hs; subst hs
+        simp only [List.mem_map] at hp
+        obtain ⟨d, hd, rfl⟩ := hp
+        simp at hm
+
+/-- what a closed-segment snapshot copies of one table directory recovers to exactly what the source table
+    itself shows when it is reopened. -/
+theorem closed_copy_eq_reopen (t : Table) : content (recover ⟨t.disk, t.manifest⟩) = t.reopen.flushed := by
+  cases hm : t.manifest with
+  | none => simp [recover, Table.reopen, Table.flushed, hm, content]
+  | some m =>
+    by_cases he : (t.disk.filter (fun d => m.contains d.id && d.complete)).isEmpty = true
+    · have h0 : t.disk.filter (fun d => m.contains d.id && d.complete) = [] := List.isEmpty_iff.mp he
+      simp only [recover, Table.reopen, Table.flushed, hm, h0, content, List.isEmpty_nil, if_true, List.flatMap_nil]
+    · simp only [recover, Table.reopen, Table.flushed, hm, he, content, Snap.diskParts, Bool.false_eq_true, if_false]
+      generalize t.disk.filter (fun d => m.contains d.id && d.complete) = keep
+      have e : (keep.map fun d => ({ id := d.id, mem := false, batches := d.batches } : PW)).filter (fun pw => !pw.mem)
+          = keep.map fun d => ({ id := d.id, mem := false, batches := d.batches } : PW) :=
+        List.filter_eq_self.mpr (by intro a ha; rw [List.mem_map] at ha; obtain ⟨d, _, rfl⟩ := ha; rfl)
+      rw [e, List.flatMap_map]
+
+/-! ### segments and the database -/
+
+/-- segment invariant with `k` references held by an in-flight snapshot:
+    every table satisfies the table invariant and `refCount = holders + k`. -/
+structure Seg.Inv (k : Nat) (s : Seg) : Prop where
+  tables : ∀ h t, s.tab h = some t → t.WF
+  refs : s.ref = s.holders + k
+
+/-- database invariant; `pin d` is the number of references an in-flight snapshot holds on segment `d`
+    (a segment that does not exist cannot be pinned). -/
+structure DB.Inv (pin : Nat → Nat) (db : DB) : Prop where
+  segs : ∀ d s, db.seg d = some s → s.Inv (pin d)
+  absent : ∀ d, db.seg d = none → pin d = 0
+
+theorem Seg.Inv.mapTables {k : Nat} {s : Seg} (h : s.Inv k) {f : Table → Table} (hf : ∀ t : Table, t.WF → (f t).WF) :
+    ∀ h' t, (s.mapTables f).tab h' = some t → t.WF := by
+  intro h' t ht
+  simp only [Seg.mapTables] at ht
+  cases hs : s.tab h' with
+  | none => simp [hs] at ht
+  | some t0 => simp only [hs, Option.map_some, Option.some.injEq] at ht; subst ht; exact hf t0 (h.tables h' t0 hs)
+
+theorem inv_reopen {k : Nat} {s : Seg} (h : s.Inv k) : s.reopen.Inv k := by
+  unfold Seg.reopen
+  split
+  · exact h
+  · exact ⟨h.mapTables (fun _ => wf_reopen), h.refs⟩
+
+theorem inv_closeRes {k : Nat} {s : Seg} (h : s.Inv k) : s.closeRes.Inv k :=
+  ⟨h.mapTables (fun _ => wf_close), h.refs⟩
+
+theorem inv_closeIfIdle {k : Nat} {s : Seg} (h : s.Inv k) : s.closeIfIdle.Inv k := by
+  unfold Seg.closeIfIdle
+  split
+  · exact inv_closeRes h
+  · exact h
+
+theorem inv_hold {k : Nat} {s : Seg} (h : s.Inv k) : s.hold.Inv k := by
+  unfold Seg.hold Seg.incRef
+  by_cases h1 : s.ref > 0
+  · simp only [h1, if_true]
+    exact ⟨h.tables, by have := h.refs; show s.ref + 1 = s.holders + 1 + k; omega⟩
+  · simp only [h1, if_false]
+    by_cases h2 : s.del = true
+    · simp only [h2, if_true, Bool.false_eq_true, if_false]; exact h
+    · simp only [h2, Bool.false_eq_true, if_false, if_true]
+      have hr := inv_reopen h
+      refine ⟨hr.tables, ?_⟩
+      have e1 : s.reopen.holders = s.holders := by unfold Seg.reopen; split <;> rfl
+      have := h.refs
+      show 1 = s.reopen.holders + 1 + k
+      omega
+
+theorem inv_performDelete {k : Nat} {s : Seg} (h : s.Inv k) : s.performDelete.Inv k := by
+  unfold Seg.performDelete
+  split
+  · exact h
+  · exact ⟨by intro h' t ht; simp at ht, h.refs⟩
+
+theorem inv_release {k : Nat} {s : Seg} (h : s.Inv k) : s.release.Inv k := by
+  unfold Seg.release
+  split
+  · exact h
+  · rename_i hh
+    unfold Seg.decRef
+    have hr := h.refs
+    have hne : s.ref ≠ 0 := by omega
+    simp only [hne, if_false]
+    have base : Seg.Inv k { s with holders := s.holders - 1, ref := s.ref - 1 } :=
+      ⟨h.tables, by show s.ref - 1 = s.holders - 1 + k; omega⟩
+    split
+    · exact inv_performDelete base
+    · exact base
+
+theorem inv_delete {k : Nat} {s : Seg} (h : s.Inv k) : s.delete.Inv k := by
+  unfold Seg.delete
+  have base : Seg.Inv k { s with del := true } := ⟨h.tables, h.refs⟩
+  simp only
+  split
+  · exact inv_performDelete base
+  · exact base
+
+theorem inv_putTable {k : Nat} {s : Seg} (h : s.Inv k) (h' : Nat) {t : Table} (ht : t.WF) : (s.putTable h' t).Inv k := by
+  refine ⟨?_, h.refs⟩
+  intro h'' t' ht'
+  simp only [Seg.putTable] at ht'
+  split at ht'
+  · simp only [Option.some.injEq] at ht'; subst ht'; exact ht
+  · exact h.tables h'' t' ht'
+
+theorem inv_put {pin : Nat → Nat} {db : DB} (h : db.Inv pin) {d : Nat} {s : Seg} (hs : s.Inv (pin d)) :
+    (db.put d s).Inv pin := by
+  refine ⟨?_, ?_⟩
+  · intro d' s' hs'
+    simp only [DB.put] at hs'
+    split at hs'
+    · rename_i e; subst e; simp only [Option.some.injEq] at hs'; subst hs'; exact hs
+    · exact h.segs d' s' hs'
+  · intro d' hd'
+    simp only [DB.put] at hd'
+    split at hd'
+    · cases hd'
+    · exact h.absent d' hd'
+
+theorem inv_modify {pin : Nat → Nat} {db : DB} (h : db.Inv pin) (d : Nat) {f : Seg → Seg}
+    (hf : ∀ s, s.Inv (pin d) → (f s).Inv (pin d)) : (db.modify d f).Inv pin := by
+  unfold DB.modify
+  cases hs : db.seg d with
+  | none => exact h
+  | some s => exact inv_put h (hf s (h.segs d s hs))
+
+theorem inv_default (k : Nat) (hk : k = 0) : ({} : Seg).Inv k := ⟨by intro h t ht; simp at ht, by simp [hk]⟩
+
+theorem inv_step {pin : Nat → Nat} {db : DB} (h : db.Inv pin) (op : DbOp) : (db.step op).Inv pin := by
+  cases op with
+  | write d h' k =>
+    simp only [DB.step]
+    have h0 : ((db.seg d).getD {}).Inv (pin d) := by
+      cases hs : db.seg d with
+      | none => exact inv_default _ (h.absent d hs)
+      | some s => exact h.segs d s hs
+    generalize (db.seg d).getD {} = s at h0
+    split
+    · exact h
+    · have h1 := inv_hold h0
+      apply inv_put h
+      apply inv_release
+      apply inv_putTable h1
+      cases ht : s.hold.tab h' with
+      | none => exact wf_introduce wf_empty k
+      | some t => exact wf_introduce (h1.tables h' t ht) k
+  | flush d h' =>
+    apply inv_modify h
+    intro s hs
+    split
+    · cases ht : s.tab h' with
+      | none => exact hs
+      | some t => exact inv_putTable hs h' (wf_flush (hs.tables h' t ht))
+    · exact hs
+  | mergeAll d h' =>
+    apply inv_modify h
+    intro s hs
+    split
+    · cases ht : s.tab h' with
+      | none => exact hs
+      | some t => exact inv_putTable hs h' (wf_merge (hs.tables h' t ht) _)
+    · exact hs
+  | closeIdle d => exact inv_modify h d (fun s hs => inv_closeIfIdle hs)
+  | hold d => exact inv_modify h d (fun s hs => inv_hold hs)
+  | release d => exact inv_modify h d (fun s hs => inv_release hs)
+  | remove d =>
+    apply inv_modify h
+    intro s hs
+    have := inv_delete hs
+    exact ⟨this.tables, this.refs⟩
+  | deleteFlag d => exact inv_modify h d (fun s hs => inv_delete hs)
+
+/-! ### the environment cannot remove a pinned table: its segment is referenced by the snapshot -/
+
+def Seg.Pinned (h : Nat) (S : Snap) (s : Seg) : Prop := ∃ t, s.tab h = some t ∧ S ∈ t.pins
+
+def DB.Pinned (d h : Nat) (S : Snap) (db : DB) : Prop := ∃ s, db.seg d = some s ∧ s.Pinned h S
+
+theorem pinned_hold {k : Nat} {s : Seg} (hi : s.Inv (k + 1)) {h : Nat} {S : Snap} (hp : s.Pinned h S) :
+    s.hold.Pinned h S := by
+  have : s.ref > 0 := by have := hi.refs; omega
+  unfold Seg.hold Seg.incRef
+  simp only [this, if_true]
+  exact hp
+
+theorem pinned_release {k : Nat} {s : Seg} (hi : s.Inv (k + 1)) {h : Nat} {S : Snap} (hp : s.Pinned h S) :
+    s.release.Pinned h S := by
+  unfold Seg.release
+  split
+  · exact hp
+  · unfold Seg.decRef
+    have hr := hi.refs
+    have h0 : s.ref ≠ 0 := by omega
+    have h1 : ¬ (s.ref = 1 ∧ s.del = true) := by intro hh; omega
+    simp only [h0, if_false, h1]
+    exact hp
+
+theorem pinned_closeIfIdle {k : Nat} {s : Seg} (hi : s.Inv (k + 1)) {h : Nat} {S : Snap} (hp : s.Pinned h S) :
+    s.closeIfIdle.Pinned h S := by
+  unfold Seg.closeIfIdle
+  have h0 : ¬ (s.isOpen = true ∧ s.ref = 0 ∧ ¬ s.del = true) := by intro hh; have := hi.refs; omega
+  simp only [h0, if_false]
+  exact hp
+
+theorem pinned_delete {k : Nat} {s : Seg} (hi : s.Inv (k + 1)) {h : Nat} {S : Snap} (hp : s.Pinned h S) :
+    s.delete.Pinned h S := by
+  unfold Seg.delete
+  have h0 : s.ref ≠ 0 := by have := hi.refs; omega
+  simp only [h0, if_false]
+  exact hp
+
+theorem pinned_putTable {s : Seg} {h : Nat} {S : Snap} (hp : s.Pinned h S) (h' : Nat) (t' : Table)
+    (hsame : h' = h → ∀ t, s.tab h = some t → t'.pins = t.pins) : (s.putTable h' t').Pinned h S := by
+  obtain ⟨t, ht, hS⟩ := hp
+  by_cases e : h = h'
+  · subst e
+    exact ⟨t', by simp [Seg.putTable], by rw [hsame rfl t ht]; exact hS⟩
+  · exact ⟨t, by simp [Seg.putTable, e, ht], hS⟩
+
+theorem pinned_put_other {db : DB} {d h : Nat} {S : Snap} (hp : db.Pinned d h S) {d' : Nat} (hne : d' ≠ d) (s' : Seg) :
+    (db.put d' s').Pinned d h S := by
+  obtain ⟨s, hs, hps⟩ := hp
+  exact ⟨s, by simp [DB.put, Ne.symm hne, hs], hps⟩
+
+theorem pinned_modify {db : DB} {d h : Nat} {S : Snap} (hp : db.Pinned d h S) (d' : Nat) {f : Seg → Seg}
+    (hf : d' = d → ∀ s, db.seg d = some s → s.Pinned h S → (f s).Pinned h S) : (db.modify d' f).Pinned d h S := by
+  unfold DB.modify
+  cases hs' : db.seg d' with
+  | none => exact hp
+  | some s' =>
+    by_cases e : d' = d
+    · subst e
+      obtain ⟨s, hs, hps⟩ := hp
+      rw [hs'] at hs; cases hs
+      exact ⟨f s', by simp [DB.put], hf rfl s' hs' hps⟩
+    · exact pinned_put_other hp e _
+
+theorem modifyTable_pins {s : Seg} {h : Nat} {S : Snap} (hp : s.Pinned h S) (h' : Nat) {f : Table → Table}
+    (hf : ∀ t, (f t).pins = t.pins) :
+    (if s.isOpen then (match s.tab h' with | some t => s.putTable h' (f t) | none => s) else s).Pinned h S := by
+  split
+  · cases ht : s.tab h' with
+    | none => exact hp
+    | some t =>
+      apply pinned_putTable hp
+      intro e t0 ht0
+      subst e
+      rw [ht] at ht0; cases ht0
+      exact hf t
+  · exact hp
+
+theorem introduce_pins (t : Table) (k : Nat) : (t.introduce k).pins = t.pins := rfl
+theorem flush_pins (t : Table) : t.flush.pins = t.pins := step_pins t .flush
+theorem merge_pins (t : Table) (pos : List Nat) : (t.merge pos).pins = t.pins := step_pins t (.merge pos)
+
+theorem pinned_step {pin : Nat → Nat} {db : DB} (hi : db.Inv pin) {d h : Nat} {S : Snap} (hpin : pin d ≥ 1)
+    (hp : db.Pinned d h S) (op : DbOp) : (db.step op).Pinned d h S := by
+  obtain ⟨k, hk⟩ : ∃ k, pin d = k + 1 := ⟨pin d - 1, by omega⟩
+  have hinv : ∀ s, db.seg d = some s → s.Inv (k + 1) := fun s hs => hk ▸ hi.segs d s hs
+  cases op with
+  | write d' h' b =>
+    simp only [DB.step]
+    by_cases e : d' = d
+    · subst e
+      obtain ⟨s, hs, hps⟩ := hp
+      simp only [hs, Option.getD_some]
+      split
+      · exact ⟨s, hs, hps⟩
+      · have i1 := hinv s hs
+        have p1 := pinned_hold i1 hps
+        have i2 : s.hold.Inv (k + 1) := inv_hold i1
+        have p2 : (s.hold.putTable h' (((s.hold.tab h').getD {}).introduce b)).Pinned h S := by
+          apply pinned_putTable p1
+          intro e t0 ht0
+          subst e
+          simp only [ht0, Option.getD_some]; rfl
+        have i3 : (s.hold.putTable h' (((s.hold.tab h').getD {}).introduce b)).Inv (k + 1) := by
+          apply inv_putTable i2
+          cases ht : s.hold.tab h' with
+          | none => exact wf_introduce wf_empty b
+          | some t => exact wf_introduce (i2.tables h' t ht) b
+        refine ⟨_, ?_, pinned_release i3 p2⟩
+        show (if d' = d' then some _ else _) = some _
+        rw [if_pos rfl]
+    · split
+      · exact hp
+      · exact pinned_put_other hp e _
+  | flush d' h' =>
+    exact pinned_modify hp d' (fun _ s _ hps => modifyTable_pins hps h' flush_pins)
+  | mergeAll d' h' =>
+    exact pinned_modify hp d' (fun _ s _ hps => modifyTable_pins hps h' (fun t => merge_pins t _))
+  | closeIdle d' => exact pinned_modify hp d' (fun e s hs hps => pinned_closeIfIdle (hinv s hs) hps)
+  | hold d' => exact pinned_modify hp d' (fun e s hs hps => pinned_hold (hinv s hs) hps)
+  | release d' => exact pinned_modify hp d' (fun e s hs hps => pinned_release (hinv s hs) hps)
+  | remove d' =>
+    apply pinned_modify hp d'
+    intro e s hs hps
+    have := pinned_delete (hinv s hs) hps
+    exact this
+  | deleteFlag d' => exact pinned_modify hp d' (fun e s hs hps => pinned_delete (hinv s hs) hps)
+
+theorem inv_run {pin : Nat → Nat} {db : DB} (h : db.Inv pin) (ops : List DbOp) : (db.run ops).Inv pin := by
+  induction ops generalizing db with
+  | nil => exact h
+  | cons op rest ih => exact ih (inv_step h op)
+
+theorem pinned_run {pin : Nat → Nat} {db : DB} (hi : db.Inv pin) {d h : Nat} {S : Snap} (hpin : pin d ≥ 1)
+    (hp : db.Pinned d h S) (ops : List DbOp) : (db.run ops).Pinned d h S := by
+  induction ops generalizing db with
+  | nil => exact hp
+  | cons op rest ih => exact ih (inv_step hi op) (pinned_step hi hpin hp op)
+
+/-! ### the snapshot procedures over a database -/
+
+theorem takeFileSnapshot_noSnapshot {σ : Type} (L : Lens σ) (hook : Nat → σ → σ) (failAt : Option Nat)
+    (dst0 : Option Dst) (p0 : Nat) (st : σ) (hc : (L.get st).cur = none) :
+    takeFileSnapshot L hook failAt dst0 p0 st = (st, ⟨.noSnapshot, dst0⟩, p0) := by
+  unfold takeFileSnapshot; simp only [hc]
+
+theorem takeFileSnapshot_noDisk {σ : Type} (L : Lens σ) (hook : Nat → σ → σ) (failAt : Option Nat) (Env : σ → Prop)
+    (S : Snap)
+    (hgs : ∀ st t, Env st → L.get (L.set st t) = t)
+    (hset : ∀ st t, Env st → t.WF → Env (L.set st t))
+    (st : σ) (henv : Env st) (hwf : (L.get st).WF) (hcur : (L.get st).cur = some S) (he : S.diskParts = [])
+    (dst0 : Option Dst) (p0 : Nat) :
+    ∃ st', takeFileSnapshot L hook failAt dst0 p0 st = (st', ⟨.noDisk, dst0⟩, p0) ∧ Env st' := by
+  have w1 := wf_pin hwf hcur
+  have e1 : Env (L.set st ((L.get st).pin S)) := hset _ _ henv w1
+  have w2 : ((L.get (L.set st ((L.get st).pin S))).unpin S).WF := by
+    apply wf_unpin; rw [hgs _ _ henv]; exact w1
+  refine ⟨L.set (L.set st ((L.get st).pin S)) ((L.get (L.set st ((L.get st).pin S))).unpin S), ?_, hset _ _ e1 w2⟩
+  unfold takeFileSnapshot
+  simp only [hcur, he, List.isEmpty_nil, if_true]
+
+def pin0 : Nat → Nat := fun _ => 0
+def pin1 (d : Nat) : Nat → Nat := fun d' => if d' = d then 1 else 0
+
+/-- exact image of a snapshot in a table directory: every file part hard-linked, manifest of that snapshot. -/
+def Snap.image (S : Snap) : Dst := ⟨S.diskParts.map PW.toDisk, some S.ids⟩
+
+/-- environment of a database snapshot: before every file-system call an arbitrary list of operations runs. -/
+def dbEnv (ops : Nat → List DbOp) : Nat → DB → DB := fun p db => db.run (ops p)
+
+theorem tableLens_get {db : DB} {d h : Nat} {s : Seg} {t : Table} (hs : db.seg d = some s) (ht : s.tab h = some t) :
+    (DLens.id.table d h).get db = t := by
+  simp [DLens.table, DLens.id, hs, ht]
+
+theorem tableLens_cur_some {db : DB} {d h : Nat} {S : Snap} (hc : ((DLens.id.table d h).get db).cur = some S) :
+    ∃ s t, db.seg d = some s ∧ s.tab h = some t := by
+  simp only [DLens.table, DLens.id] at hc
+  cases hs : db.seg d with
+  | none => simp [hs] at hc
+  | some s =>
+    cases ht : s.tab h with
+    | none => simp [hs, ht] at hc
+    | some t => exact ⟨s, t, rfl, ht⟩
+
+def TEnv (d h : Nat) (db : DB) : Prop := db.Inv (pin1 d) ∧ ∃ s t, db.seg d = some s ∧ s.tab h = some t
+
+theorem tenv_getset (d h : Nat) : ∀ (db : DB) (t : Table), TEnv d h db →
+    (DLens.id.table d h).get ((DLens.id.table d h).set db t) = t := by
+  intro db t ⟨_, s, t0, hs, _⟩
+  simp [DLens.table, DLens.id, DB.modify, hs, DB.put, Seg.putTable]
+
+theorem tenv_set (d h : Nat) : ∀ (db : DB) (t : Table), TEnv d h db → t.WF → TEnv d h ((DLens.id.table d h).set db t) := by
+  intro db t ⟨hi, s, t0, hs, _⟩ hw
+  refine ⟨?_, s.putTable h t, t, ?_, ?_⟩
+  · show (db.modify d fun s => s.putTable h t).Inv _
+    exact inv_modify hi d (fun s hs => inv_putTable hs h hw)
+  · simp [DLens.table, DLens.id, DB.modify, hs, DB.put]
+  · simp [Seg.putTable]
+
+theorem tenv_wf (d h : Nat) (db : DB) (he : TEnv d h db) : ((DLens.id.table d h).get db).WF := by
+  obtain ⟨hi, s, t, hs, ht⟩ := he
+  rw [tableLens_get hs ht]
+  exact (hi.segs d s hs).tables h t ht
+
+theorem tenv_hook (d h : Nat) (ops : Nat → List DbOp) (S : Snap) : ∀ p db, TEnv d h db → Holds (DLens.id.table d h) S db →
+    TEnv d h (dbEnv ops p db) ∧ Holds (DLens.id.table d h) S (dbEnv ops p db) := by
+  intro p db ⟨hi, s, t, hs, ht⟩ ⟨_, hS⟩
+  rw [tableLens_get hs ht] at hS
+  have hp : db.Pinned d h S := ⟨s, hs, t, ht, hS⟩
+  have hi' := inv_run hi (ops p)
+  obtain ⟨s', hs', t', ht', hS'⟩ := pinned_run hi (by simp [pin1]) hp (ops p)
+  refine ⟨⟨hi', s', t', hs', ht'⟩, ?_, ?_⟩
+  · show ((DLens.id.table d h).get (db.run (ops p))).WF
+    rw [tableLens_get hs' ht']; exact (hi'.segs d s' hs').tables h t' ht'
+  · show S ∈ ((DLens.id.table d h).get (db.run (ops p))).pins
+    rw [tableLens_get hs' ht']; exact hS'
+
+/-- one table of an open, pinned segment: its snapshot never fails, whatever the environment does, and yields
+    either nothing (no snapshot / no file parts) or the exact image of the snapshot it pinned. -/
+theorem table_in_db (d h : Nat) (ops : Nat → List DbOp) (db : DB) (hI : db.Inv (pin1 d)) (hs : (db.seg d).isSome)
+    (dst0 : Option Dst) (p0 : Nat) :
+    ∃ db' r p', takeFileSnapshot (DLens.id.table d h) (dbEnv ops) none dst0 p0 db = (db', r, p')
+      ∧ db'.Inv (pin1 d) ∧ (db'.seg d).isSome ∧ r.status ≠ .err
+      ∧ (r.dst = dst0 ∨ ∃ S : Snap, S.diskParts ≠ [] ∧ r.dst = some S.image) := by
+  cases hc : ((DLens.id.table d h).get db).cur with
+  | none =>
+    refine ⟨db, _, p0, takeFileSnapshot_noSnapshot _ _ _ _ _ _ hc, hI, hs, by simp, Or.inl rfl⟩
+  | some S =>
+    obtain ⟨s, t, hs', ht'⟩ := tableLens_cur_some hc
+    have he : TEnv d h db := ⟨hI, s, t, hs', ht'⟩
+    by_cases hd : S.diskParts = []
+    · obtain ⟨db', hr, he'⟩ := takeFileSnapshot_noDisk (DLens.id.table d h) (dbEnv ops) none (TEnv d h) S
+        (tenv_getset d h) (tenv_set d h) db he (tenv_wf d h db he) hc hd dst0 p0
+      obtain ⟨hi', s', _, hs'', _⟩ := he'
+      exact ⟨db', _, p0, hr, hi', by simp [hs''], by simp, Or.inl rfl⟩
+    · obtain ⟨db', hr, he', _⟩ := takeFileSnapshot_ok (DLens.id.table d h) (dbEnv ops) (TEnv d h) S
+        (tenv_getset d h) (tenv_set d h) (tenv_hook d h ops S) db he (tenv_wf d h db he) hc hd dst0 p0
+      obtain ⟨hi', s', _, hs'', _⟩ := he'
+      exact ⟨db', _, _, hr, hi', by simp [hs''], by simp, Or.inr ⟨S, hd, rfl⟩⟩
+
+/-- a shard directory in a database snapshot: empty (table without snapshot or without file parts), the exact
+    image of a snapshot the table pinned, or the hard-linked directory of a closed table. -/
+inductive ShardOK : Dst → Prop
+  | empty : ShardOK {}
+  | image (S : Snap) : S.diskParts ≠ [] → ShardOK S.image
+  | closed (t : Table) : t.WF → ShardOK ⟨t.disk, t.manifest⟩
+
+theorem shardLoop_ok (d : Nat) (ops : Nat → List DbOp) : ∀ (hs : List Nat) (p : Nat) (db : DB) (acc : List (Nat × Dst)),
+    db.Inv (pin1 d) → (db.seg d).isSome → (∀ x ∈ acc, ShardOK x.2) →
+    ∃ db' sh p', shardLoop DLens.id (dbEnv ops) none d hs p db acc = (db', sh, false, p')
+      ∧ db'.Inv (pin1 d) ∧ (db'.seg d).isSome ∧ (∀ x ∈ sh, ShardOK x.2)
+  | [], p, db, acc, hi, hs, ha => ⟨db, acc, p, by simp [shardLoop], hi, hs, ha⟩
+  | h :: rest, p, db, acc, hi, hs, ha => by
+    obtain ⟨db1, r, p1, hr, hi1, hs1, hne, hshape⟩ := table_in_db d h ops db hi hs (some {}) p
+    have hok : ShardOK (r.dst.getD {}) := by
+      rcases hshape with e | ⟨S, hS, e⟩
+      · rw [e]; exact ShardOK.empty
+      · rw [e]; exact ShardOK.image S hS
+    obtain ⟨db', sh, p', hl, hi', hs', ha'⟩ := shardLoop_ok d ops rest p1 db1 (acc ++ [(h, r.dst.getD {})]) hi1 hs1
+      (by intro x hx; rcases List.mem_append.mp hx with hx | hx
+          · exact ha x hx
+          · simp only [List.mem_singleton] at hx; subst hx; exact hok)
+    refine ⟨db', sh, p', ?_, hi', hs', ha'⟩
+    rw [shardLoop, hr]
+    obtain ⟨status, dst⟩ := r
+    cases status <;> first | exact absurd rfl hne | exact hl
+
+theorem inv_decRef_unpin {k : Nat} {s : Seg} (h : s.Inv (k + 1)) : s.decRef.Inv k := by
+  unfold Seg.decRef
+  have hr := h.refs
+  have h0 : s.ref ≠ 0 := by omega
+  simp only [h0, if_false]
+  have base : Seg.Inv k { s with ref := s.ref - 1 } := ⟨h.tables, by show s.ref - 1 = s.holders + k; omega⟩
+  split
+  · exact inv_performDelete base
+  · exact base
+
+theorem inv_pin_seg {db : DB} (hi : db.Inv pin0) {d : Nat} {s : Seg} (hs : db.seg d = some s) :
+    (db.put d { s with ref := s.ref + 1 }).Inv (pin1 d) := by
+  refine ⟨?_, ?_⟩
+  · intro d' s' hs'
+    simp only [DB.put] at hs'
+    split at hs'
+    · rename_i e; subst e; simp only [Option.some.injEq] at hs'; subst hs'
+      have := hi.segs d' s hs
+      refine ⟨this.tables, ?_⟩
+      have hr := this.refs
+      simp only [pin0, pin1, if_true] at hr ⊢; omega
+    · rename_i e
+      have := hi.segs d' s' hs'
+      simpa [pin0, pin1, e] using this
+  · intro d' hd'
+    simp only [DB.put] at hd'
+    split at hd'
+    · cases hd'
+    · rename_i e; simp [pin1, e]
+
+theorem inv_unpin_seg {db : DB} {d : Nat} (hi : db.Inv (pin1 d)) : (db.modify d Seg.decRef).Inv pin0 := by
+  unfold DB.modify
+  cases hs : db.seg d with
+  | none =>
+    refine ⟨?_, fun _ _ => rfl⟩
+    intro d' s' hs'
+    have := hi.segs d' s' hs'
+    have e : d' ≠ d := by intro e; subst e; rw [hs] at hs'; cases hs'
+    simpa [pin0, pin1, e] using this
+  | some s =>
+    refine ⟨?_, fun _ _ => rfl⟩
+    intro d' s' hs'
+    simp only [DB.put] at hs'
+    split at hs'
+    · rename_i e; subst e; simp only [Option.some.injEq] at hs'; subst hs'
+      have := hi.segs d' s hs
+      simp only [pin1, if_true] at this
+      exact inv_decRef_unpin (k := 0) this
+    · rename_i e
+      have := hi.segs d' s' hs'
+      simpa [pin0, pin1, e] using this
+
+/-- `snapshotInto` never fails under any environment of database operations, restores the reference it took and
+    writes only well-formed shard directories. -/
+theorem snapshotInto_ok (ops : Nat → List DbOp) (d p : Nat) (db : DB) (hi : db.Inv pin0) :
+    ∃ db' st sd p', snapshotInto DLens.id (dbEnv ops) none d p db = (db', st, sd, p')
+      ∧ db'.Inv pin0 ∧ st ≠ .err ∧ (∀ x, sd = some x → ∀ y ∈ x.shards, ShardOK y.2) := by
+  unfold snapshotInto
+  cases hs : (DLens.id.get db).seg d with
+  | none => exact ⟨db, _, _, _, rfl, hi, by simp, by simp⟩
+  | some s =>
+    simp only
+    by_cases hdel : s.del = true
+    · rw [if_pos hdel]; exact ⟨db, _, _, _, rfl, hi, by simp, by simp⟩
+    · rw [if_neg hdel]
+      by_cases hop : s.isOpen = true
+      · rw [if_pos hop]
+        have hi1 := inv_pin_seg hi hs
+        obtain ⟨db', sh, p', hl, hi', _, ha'⟩ := shardLoop_ok d ops s.order p _ [] hi1 (by simp [DB.put]) (by simp)
+        have hl' : shardLoop DLens.id (dbEnv ops) none d s.order p
+            (DLens.id.set db ((DLens.id.get db).put d { s with ref := s.ref + 1 })) [] = (db', sh, false, p') := hl
+        rw [hl']
+        refine ⟨_, _, _, _, rfl, inv_unpin_seg hi', by simp, ?_⟩
+        intro x hx; simp only [Option.some.injEq] at hx; subst hx; exact ha'
+      · rw [if_neg hop]
+        refine ⟨db, _, _, _, rfl, hi, by simp, ?_⟩
+        intro x hx; simp only [Option.some.injEq] at hx; subst hx
+        intro y hy
+        simp only [List.mem_filterMap] at hy
+        obtain ⟨h, _, hy⟩ := hy
+        cases ht : s.tab h with
+        | none => simp [ht] at hy
+        | some t =>
+          simp only [ht, Option.map_some, Option.some.injEq] at hy
+          subst hy
+          exact ShardOK.closed t ((hi.segs d s hs).tables h t ht)
+
+theorem segLoop_ok (ops : Nat → List DbOp) : ∀ (days : List Nat) (p : Nat) (db : DB) (acc : List (Nat × SegDst)),
+    db.Inv pin0 → (∀ x ∈ acc, ∀ y ∈ x.2.shards, ShardOK y.2) →
+    ∃ db' segs, segLoop DLens.id (dbEnv ops) none days p db acc = (db', segs, false)
+      ∧ db'.Inv pin0 ∧ (∀ x ∈ segs, ∀ y ∈ x.2.shards, ShardOK y.2)
+  | [], p, db, acc, hi, ha => ⟨db, acc, by simp [segLoop], hi, ha⟩
+  | d :: rest, p, db, acc, hi, ha => by
+    obtain ⟨db1, st, sd, p1, hr, hi1, hne, hsd⟩ := snapshotInto_ok ops d p db hi
+    rw [segLoop, hr]
+    cases st with
+    | err => exact absurd rfl hne
+    | skipped => exact segLoop_ok ops rest p1 db1 acc hi1 ha
+    | ok =>
+      apply segLoop_ok ops rest p1 db1 _ hi1
+      intro x hx
+      rcases List.mem_append.mp hx with hx | hx
+      · exact ha x hx
+      · cases sd with
+        | none => simp at hx
+        | some v =>
+          simp only [Option.map_some, Option.toList_some, List.mem_singleton] at hx
+          subst hx
+          exact hsd v rfl
+
+/-! ### final state and failing links -/
+
+theorem linkLoop_state {σ : Type} (L : Lens σ) (hook : Nat → σ → σ) (failAt : Option Nat) (Q : σ → Prop)
+    (hQ : ∀ p st, Q st → Q (hook p st)) :
+    ∀ (dps : List PW) (p : Nat) (st : σ) (acc : List DiskPart), Q st → Q (linkLoop L hook failAt dps p st acc).1
+  | [], _, _, _, h => h
+  | pw :: rest, p, st, acc, h => by
+    rw [linkLoop]
+    split
+    · exact hQ p st h
+    · split
+      · exact hQ p st h
+      · exact linkLoop_state L hook failAt Q hQ rest (p + 1) (hook p st) _ (hQ p st h)
+
+/-- in every outcome the final state is `unpin S` applied to a state the hooks produced from the pinned one. -/
+theorem takeFileSnapshot_final {σ : Type} (L : Lens σ) (hook : Nat → σ → σ) (failAt : Option Nat) (dst0 : Option Dst)
+    (p0 : Nat) (st : σ) (S : Snap) (hcur : (L.get st).cur = some S) (Q : σ → Prop)
+    (hQ : ∀ p st, Q st → Q (hook p st)) (h1 : Q (L.set st ((L.get st).pin S))) :
+    ∃ st3, Q st3 ∧ (takeFileSnapshot L hook failAt dst0 p0 st).1 = L.set st3 ((L.get st3).unpin S) := by
+  unfold takeFileSnapshot
+  simp only [hcur]
+  split
+  · exact ⟨_, h1, rfl⟩
+  · have h2 := linkLoop_state L hook failAt Q hQ S.diskParts p0 _ [] h1
+    split
+    · rename_i st2 _ _ heq
+      rw [heq] at h2
+      exact ⟨st2, h2, rfl⟩
+    · rename_i st2 _ p heq
+      rw [heq] at h2
+      exact ⟨hook p st2, hQ p st2 h2, rfl⟩
+
+theorem linkLoop_fail {σ : Type} (L : Lens σ) (hook : Nat → σ → σ) (Env : σ → Prop) (S : Snap)
+    (hhook : ∀ p st, Env st → Holds L S st → Env (hook p st) ∧ Holds L S (hook p st)) :
+    ∀ (dps : List PW) (p : Nat) (st : σ) (acc : List DiskPart) (f : Nat),
+      (∀ pw ∈ dps, pw ∈ S.parts ∧ pw.mem = false) → Env st → Holds L S st → p ≤ f → f < p + dps.length →
+      ∃ st' acc' q, linkLoop L hook (some f) dps p st acc = (st', acc', true, q)
+  | [], p, st, acc, f, _, _, _, h1, h2 => by simp at h2; omega
+  | pw :: rest, p, st, acc, f, hd, he, hh, h1, h2 => by
+    rw [linkLoop]
+    by_cases e : f = p
+    · subst e; simp
+    · obtain ⟨he1, hh1⟩ := hhook p st he hh
+      have hpw := hd pw (List.mem_cons_self)
+      have hon : pw.toDisk ∈ (L.get (hook p st)).disk :=
+        hh1.1.live_on_disk S (by simp [Table.live, hh1.2]) pw hpw.1 hpw.2
+      have hf := find_toDisk hh1.1.disk_nodup hon
+      have : ¬ (some f = some p) := by simpa using e
+      simp only [this, if_false, hf]
+      exact linkLoop_fail L hook Env S hhook rest (p + 1) (hook p st) _ f
+        (fun q hq => hd q (List.mem_cons_of_mem _ hq)) he1 hh1 (by omega) (by simp at h2; omega)
 
 end Banyan.C19
